@@ -24,7 +24,7 @@ MaskChoices(sh) ==
     ELSE {[k \in 1..Size(sh) |-> FALSE], CornerMask(sh)}
          \cup {[k \in 1..Size(sh) |-> k = u] : u \in 1..Size(sh)}
          \cup {[k \in 1..Size(sh) |-> k = u \/ k = 1 \/ k = Size(sh)] : u \in 2..(Size(sh) - 1)}
-Names == <<<<"A">>, <<"B">>, <<"C">>>>
+Names == <<<<"A">>, <<"B">>, <<"C">>, <<"D">>, <<"E">>, <<"F">>>>
 IdChoices(sh) == {<<>>, SubSeq(Names, 1, Len(sh))}
 
 \* Initial states fix shape and data; the first step chooses mask and labels (so
